@@ -466,13 +466,21 @@ func genTTHCase(t *rapid.T) TTHCase {
 		Seq:   rapid.OneOf(rapid.Int32(), rapid.SampledFrom([]int32{0, 1, -1, 0x7fffffff, -0x80000000, 0x7ffffffe})).Draw(t, "seq"),
 		Proto: rapid.SampledFrom([]byte{0, 3, 4, 0x10, 0x11}).Draw(t, "proto"),
 	}
-	ni := rapid.SampledFrom([]int{0, 0, 1, 2, 3, 8, 30}).Draw(t, "ni")
+	ni := rapid.SampledFrom([]int{0, 0, 0, 1, 1, 2, 2, 3, 3, 8, 8, 30, 30, 255, 256, 257, 1000}).Draw(t, "ni")
 	for i := 0; i < ni; i++ {
+		if ni > 30 {
+			c.Int = append(c.Int, TTHIntEntry{K: uint16(i * 7), V: PStr{L: i % 4, S: byte(i)}})
+			continue
+		}
 		c.Int = append(c.Int, TTHIntEntry{K: rapid.OneOf(rapid.Uint16(), rapid.Uint16Range(0, 30)).Draw(t, "ik"), V: genPStr(t, "iv", i == 0)})
 	}
 	c.IntNonNil = rapid.Bool().Draw(t, "intNonNil")
-	ns := rapid.SampledFrom([]int{0, 0, 1, 2, 3, 8, 30}).Draw(t, "ns")
+	ns := rapid.SampledFrom([]int{0, 0, 0, 1, 1, 2, 2, 3, 3, 8, 8, 30, 30, 255, 256, 257, 1000}).Draw(t, "ns")
 	for i := 0; i < ns; i++ {
+		if ns > 30 {
+			c.Str = append(c.Str, TTHStrEntry{K: PStr{L: 3 + i/250, S: byte(i)}, V: PStr{L: i % 3, S: byte(i)}})
+			continue
+		}
 		c.Str = append(c.Str, TTHStrEntry{K: genPStr(t, "sk", false), V: genPStr(t, "sv", i == 0)})
 	}
 	c.StrNonNil = rapid.Bool().Draw(t, "strNonNil")
